@@ -100,6 +100,45 @@ def run_main(mutate=None):
     return dict(obls=obls, paths=n, sources=[L.info()], consistent=sym.consistent())
 
 
+def run_frame(mutate=None):
+    """frame condition of the step on ARRAYS (not the generic-site reading): the inputs (psi^n, |psi^n|^2, mu, epsilon) are not written and the
+    results are new arrays - the caller keeps using |psi^n|^2 for the step-size rule and for later screening iterations"""
+    from pyvc.arr import SymArray
+    L = load(mutate)
+    fn = L["TDGLSolver"].solve_for_psi_squared
+
+    def body():
+        c = sym.ctx()
+        R = z3.Real
+        N = SI(z3.Int("n_sites"))
+        assume(N >= 1)
+        arrs = dict(psi=SymArray.input("psi_in", (N,), "c"), abs_sq_psi=SymArray.input("abs_sq_psi_in", (N,)), mu=SymArray.input("mu_in", (N,)),
+                    epsilon=SymArray.input("epsilon_in", (N,)))
+        lap = SymArray.input("lap_psi", (N,), "c")
+
+        class Act:
+            def __matmul__(self_, v):
+                return lap
+        gamma = SR(R("gamma"))
+        gz = bool(SB(z3.Bool("gamma_is_zero")))
+        if gz:
+            gamma = 0.0        # the documented special case, as the Python number a Layer holds
+        else:
+            assume(gamma > 0)
+        u, dt = SR(R("u")), SR(R("dt"))
+        assume(u > 0, dt > 0)
+        c.safety = False
+        res = fn(gamma=gamma, u=u, dt=dt, psi_laplacian=Act(), **arrs)
+        written = [w_[0] for w_ in c.ghost.get("writes", [])]
+        ids = {id(a_): k_ for k_, a_ in arrs.items()}
+        hit = sorted({ids[id(w_)] for w_ in written if id(w_) in ids} | {ids[w_.__dict__.get("_owner_id")] for w_ in written if w_.__dict__.get("_owner_id") in ids})
+        check("C02.frame.inputs_of_the_step_are_not_written", z3.BoolVal(not hit), note=f"written: {hit}")
+        if res is not None:
+            check("C02.frame.results_are_new_arrays", z3.BoolVal(all(id(r_) not in ids for r_ in res)), note=str([ids.get(id(r_)) for r_ in res]))
+    obls, n = explore(body)
+    return dict(obls=obls, paths=n, sources=[L.info()], consistent=sym.consistent())
+
+
 def _consistent(obls):
     return True
 
@@ -144,6 +183,7 @@ def units():
     U = "tdgl.solver.solver:TDGLSolver.update"
     return [
         Unit("solve_for_psi_squared", FUNC, run_main, props=["C02"], timeout=300),
+        Unit("solve_for_psi_squared[frame, arrays]", FUNC, run_frame, props=["C02", "C11", "C12"], timeout=300),
         Unit("solvability_lemmas", "lemma (no code): quadratic eq. quad-1/quad-2", run_lemmas, props=["C02"], timeout=120),
         # call-site precondition of the step function inside update(): abs_sq_psi == |psi|^2 and the base state is (psi^n, mu^n)
         Unit("update[no screening, static A]", U, _upd(False, False), props=["C02"], timeout=900),
@@ -166,6 +206,7 @@ def run_native_quick(mutate=None):
 
 M = "tdgl.solver.solver"
 MUTANTS = [
+    dict(name="new |psi|^2 written into the caller's buffer", edits=[("tdgl.solver.solver", "        new_sq_psi = (2 * w2) / (two_c_1 + xp.sqrt(discriminant))", "        new_sq_psi = xp.divide(2 * w2, two_c_1 + xp.sqrt(discriminant), out=abs_sq_psi)")], units=["solve_for_psi_squared[frame, arrays]"]),
     dict(name="other root (two_c_1 - sqrt)", edits=[(M, "(two_c_1 + xp.sqrt(discriminant))", "(two_c_1 - xp.sqrt(discriminant))")]),
     dict(name="temporal link sign exp(+i mu dt)", edits=[(M, "U = xp.exp(-1j * mu * dt)", "U = xp.exp(1j * mu * dt)")]),
     dict(name="dt*u for dt/u", edits=[(M, "+ (dt / u)", "+ (dt * u)")]),
@@ -250,7 +291,34 @@ def replay(unit, obl):
         return dict(confirmed=bool(bad), failing_input=(bad or [None])[0], evaluations=n)
     if unit.startswith("update["):
         return replay_update(unit, obl)
+    if "frame" in unit:
+        return replay_frame(unit, obl)
     return replay_kernel(unit, obl)
+
+
+def replay_frame(unit, obl):
+    """native: the real static method on random arrays, gamma in {0, 1, 10}: inputs bit-identical afterwards, results are other arrays"""
+    import numpy as np
+    import scipy.sparse as sp
+    import tdgl
+    from tdgl.solver.solver import TDGLSolver
+    rng = np.random.default_rng(7)
+    bad = []
+    n = 0
+    for gamma in (0.0, 0, 1.0, 10.0):
+        for t in range(5):
+            N = 12
+            psi = 0.8 * (rng.normal(size=N) + 1j * rng.normal(size=N))
+            args = dict(psi=psi, abs_sq_psi=np.abs(psi) ** 2, mu=0.1 * rng.normal(size=N), epsilon=rng.uniform(0, 1, size=N))
+            keep = {k: v.copy() for k, v in args.items()}
+            lap = sp.random(N, N, density=0.3, random_state=int(rng.integers(1 << 30)), format="csr").astype(complex)
+            out = TDGLSolver.solve_for_psi_squared(gamma=gamma, u=5.79, dt=1e-3, psi_laplacian=lap, **args)
+            n += 1
+            changed = [k for k in args if not np.array_equal(args[k], keep[k])]
+            shared = [] if out is None else [k for k in args for r in out if np.shares_memory(args[k], r)]
+            if changed or shared:
+                bad.append(dict(what="solve_for_psi_squared writes into / returns the arrays it was given", gamma=gamma, inputs_changed=changed, results_sharing_memory_with=shared))
+    return dict(confirmed=bool(bad), failing_input=(bad or [None])[0], evaluations=n, tdgl_file=tdgl.__file__)
 
 
 def replay_update(unit, obl):
